@@ -744,6 +744,56 @@ def _device_call_history(ctx, S, SRC_T, ARGS):
             ctx.nt(("device-call-history", k))
 
 
+def forwarding_helper_history(ctx, S):
+    """a helper WITHOUT any lookup that only forwards to a subroutine doing the lookups, shared by two kernels: one kernel is compiled with spec
+    S, then the other is interpreted against / compiled with another spec - each sees the values of its own spec (and an absent name stays
+    absent), and the shared helper, run on its own under either spec, still follows the spec of the run"""
+    from bloqade.shuttle.arch import ArchSpec, ArchSpecInterpreter, Layout
+    from bloqade.shuttle.prelude import move
+    from bloqade.geometry.dialects.grid import Grid
+    L = S.layout
+    lay2 = Layout(static_traps={**L.static_traps, "traps": Grid.from_positions([100.0, 103.0, 107.0, 112.0], [50.0, 52.0, 55.0])}, fillable=set(L.fillable),
+                  has_cz=set(L.has_cz), has_local=set(L.has_local), special_grid=dict(L.special_grid))
+    S2 = ArchSpec(layout=lay2, float_constants={"pitch": 0.75, "origin": 1.0}, int_constants={"rows": 9, "zero": 0})          # no "dup" at all
+    shared = ("@move\ndef deep(k: int):\n    return (spec.get_int_constant(constant_id=\"rows\") + k, spec.get_float_constant(constant_id=\"pitch\"), spec.get_static_trap(zone_id=\"traps\"))\n\n"
+              "@move\ndef deep_dup():\n    return spec.get_float_constant(constant_id=\"dup\")\n\n"
+              "@move\ndef forward(k: int):\n    return deep(k)\n\n@move\ndef forward_dup():\n    return deep_dup()\n\n")
+    ns = kernels.define(shared)
+    ka = "@move{DEC}\ndef ka(k: int):\n    return (forward(k), forward_dup())\n"
+    kb = "@move{DEC}\ndef kb(k: int):\n    return (forward(k + 1), 7)\n"
+    kc = "@move{DEC}\ndef kc(k: int):\n    return forward_dup()\n"
+    show = lambda v: show_value(v, S)
+    want = lambda X, k: ((X.int_constants["rows"] + k, X.float_constants["pitch"], X.layout.static_traps["traps"]))
+
+    def run_plain(m, X, args):
+        try:
+            return show(ArchSpecInterpreter(move, arch_spec=X).run(m, args))
+        except Exception as e:
+            return "ERR"
+
+    def compiled(src, X, name, args):
+        try:
+            return show(kernels.define(src.replace("{DEC}", "(arch_spec=S)"), S=X, **ns)[name](*args))
+        except Exception as e:
+            return "ERR"
+    steps = [("ka compiled with S", lambda: compiled(ka, S, "ka", (1,)), show((want(S, 1), S.float_constants["dup"]))),
+             ("kb interpreted against the other spec", lambda: run_plain(kernels.define(kb.replace("{DEC}", ""), **ns)["kb"], S2, (1,)), show((want(S2, 2), 7))),
+             ("kb compiled with the other spec", lambda: compiled(kb, S2, "kb", (1,)), show((want(S2, 2), 7))),
+             ("kc (a name the other spec does not have) interpreted against the other spec", lambda: run_plain(kernels.define(kc.replace("{DEC}", ""), **ns)["kc"], S2, (0,)), "ERR"),
+             ("kc compiled with the other spec", lambda: compiled(kc, S2, "kc", (0,)), "ERR"),
+             ("the shared helper itself under the other spec", lambda: run_plain(ns["forward"], S2, (0,)), show(want(S2, 0))),
+             ("the shared helper itself under S", lambda: run_plain(ns["forward"], S, (0,)), show(want(S, 0))),
+             ("ka compiled with S again", lambda: compiled(ka, S, "ka", (2,)), show((want(S, 2), S.float_constants["dup"])))]
+    for k, (label, f, expect) in enumerate(steps):
+        ctx.evaluations += 1
+        got = f()
+        if got != expect:
+            ctx.fail({"kind": "behaviour-differs", "forwarding_helper": True, "step": k}, {"forwarding_helper_history": True, "step": k},
+                     f"forwarding-helper history, step {k} ({label}) after {[s[0] for s in steps[:k]]}: got {got[:120]} expected {expect[:120]}")
+            return
+    ctx.nt(("forwarding-helper-history",))
+
+
 def run(ctx):
     translated_lookups(ctx)
     from bloqade.shuttle.arch import ArchSpecInterpreter
@@ -754,6 +804,7 @@ def run(ctx):
     closure_cases(ctx, S)
     filled_zone_cases(ctx)
     device_call_kernels(ctx, S)
+    forwarding_helper_history(ctx, S)
     ctx.rule = ("tables of 2-4 @move kernels (root + subroutines, some recursive with a depth parameter, closures capturing looked-up values, "
                 "closures returned from recursive subroutines and called by the root) mixing the four lookup kinds (6% absent names) with "
                 "constants, tuples, variables; root compiled with arch_spec (fold on and off) and called through ir.Method.__call__ (plain "
@@ -1001,6 +1052,14 @@ def replay(data):
             b = "ERR"
         known = inp["name_known_under_this_kind"]
         return a != b or (not known and a != "ERR") or (known and a == "ERR"), f"compiled: {a[:60]}; spec interpreter: {b[:60]}"
+    if inp.get("forwarding_helper_history"):
+        class C:
+            def __init__(s): s.fails, s.evaluations = [], 0
+            def fail(s, sig, rep, what): s.fails.append(what)
+            def nt(s, *a): pass
+        c = C()
+        forwarding_helper_history(c, c06_spec())
+        return bool(c.fails), (c.fails or ["every kernel sees its own spec"])[0][:200]
     if inp.get("device_call_history"):
         class C:
             def __init__(s): s.fails, s.evaluations = [], 0
